@@ -54,6 +54,7 @@ def run(ctx):
     ctx.rule("R10", "the '&amp;' repair sees through canonical respelling: fix_common_query_mistakes, interpreted on every spelling of the entity (case, ';' as %3B / %3b, several per query) and on look-alikes, rewrites exactly the entities (canonicalize_url unescapes %3B, so both spellings must be one mistake)")
     from .c05 import mistakes_language
     mistakes_language(ctx, "R10")
+    composition_table(ctx, "R11")
 
 
 def default_protocol(ctx, rule, n):
@@ -334,3 +335,52 @@ def redirection_sees_decoded_letters(ctx, rule):
         ctx.ob(rule, "infer_redirection/%s/searched-text-has-letters-decoded" % pat.rpartition(".")[2], not bad,
                "infer_redirection applies %s to the url as written: '?%%75rl=http://y.com' hides the key 'url' until canonicalize_url has decoded it, so normalize_url(canonicalize_url(u)) follows a redirection that normalize_url(u) does not see" % pat.rpartition(".")[2],
                site, witness="http://x.com/?%75rl=http://y.com/page")
+
+
+# ----------------------------------------------------------------------
+# model table: the two composition equalities on one url per spelling class
+# ----------------------------------------------------------------------
+COMPOSE_CELLS = [
+    # plain / case / default port / userinfo / dot segments / index page / AMP markers
+    "http://x.com", "http://WWW.X.com/A/../b/./c/", "http://u:p@x.com:80/index.html", "http://x.com:8080/Index.html", "http://x.com/a/amp/", "http://x.com/a%2Eamp", "http://amp-x.com/a.amp.html", "http://m.x.co.uk/p?amp=1&a=2",
+    # escapes canonicalize_url removes: unreserved characters in path, keys, values, fragment
+    "http://x.com/%61%7Eb/%69ndex.html", "http://x.com/p?%75tm_source=x&a=1", "http://x.com/p?utm%5Fsource=x&a=1", "http://x.com/p?%61mp=1&a=2", "http://x.com/p?a=1&%61mp;b=2", "http://x.com/p?a=1&amp%3Bb=2", "http://x.com/p?a=1&AMP;b=2",
+    "http://x.com/p?%46bclid=1&a=2", "http://x.com/p#%2Froute", "http://x.com/p?a=1#%66",
+    # escapes it keeps, raw characters it escapes
+    "http://x.com/a%2Fb?a=1%26b=2&c=%3D", "http://x.com/a b?q=a b#a b", "http://x.com/caf%C3%A9/caf%E9?k=caf%C3%A9", "http://x.com/p?q=a+b&r=a%2Bb",
+    # redirections: key and target spellings
+    "http://x.com/p?url=http%3A%2F%2Fb.com%2Fy", "http://x.com/p?%75rl=http%3A%2F%2Fb.com", "http://x.com/p?redirect%5Fto=http%3A%2F%2Fb.com", "http://x.com/p?url=HTTP%3A%2F%2FB.com%2Fy", "http://x.com/p?u=%2Fy%3Fa%3D1",
+    "http://x.com/p?url=http%3A%2F%2Fb.com%2F%3Fnext%3Dhttp%253A%252F%252Fc.net", "https://x-com.cdn.ampproject.org/c/s/x.com/a%2Eamp", "http://x.com/p?url=Https%3A%2F%2Fb.com",
+    # an escaped delimiter in front of a redirect-like key (see known_findings.json: the key becomes visible once canonicalize_url has decoded the delimiter)
+    "http://x.com/a%26url=http%3A%2F%2Fb.com", "http://x.com/p?a=1%3Furl=http%3A%2F%2Fb.com", "http://x.com/p#/a%26url=http%3A%2F%2Fb.com",
+    # hosts: punycode / unicode, with the markers normalize_url strips
+    "http://xn--caf-dma.fr/p", "http://caf\u00e9.fr/p", "http://amp-xn--caf-dma.fr/p", "http://xn--amp--epa.com/p", "http://www.xn--caf-dma.fr/p", "http://XN--CAF-DMA.fr/p",
+    # platform urls
+    "https://www.youtube.com/watch?v=abcdefghijk&t=1", "https://youtu.be/abcdefghijk?si=x", "https://m.facebook.com/some.page/posts/1?_rdr", "https://www.facebook.com/permalink.php?story_fbid=5&id=1%30",
+]
+
+
+def composition_table(ctx, rule):
+    ctx.rule(rule, "model table (the two composition equalities): for one url per spelling class {case, default port, userinfo, dot segments, index page, AMP markers, escapes of unreserved characters in path / key / value / fragment, kept escapes, raw spaces, redirect keys and targets in every spelling, punycode / unicode hosts carrying a stripped marker, platform urls} x platform_aware, normalize_url(canonicalize_url(u)) == normalize_url(u) and fingerprint_url(canonicalize_url(u)) == fingerprint_url(u), all three functions interpreted")
+    from . import tables as TB
+    repo = ctx.repo
+    nm = repo.mod("normalize_url")
+    site = nm.site(nm.func("normalize_url").node)
+    n = 0
+    for u in COMPOSE_CELLS:
+        try:
+            cu = TB.call(repo, "canonicalize_url", "canonicalize_url", u)
+            if not isinstance(cu, str) or cu.startswith("raises "):
+                ctx.ob(rule, "canonical/%s" % u, False, "canonicalize_url(%r) gives %r" % (u, cu), site, witness=u)
+                continue
+            for pa in (False, True):
+                for fname, mod, call in (("normalize_url", "normalize_url", TB.call), ("fingerprint_url", "fingerprint_url", TB.call_s)):
+                    a = call(repo, mod, fname, u, platform_aware=pa)
+                    b = call(repo, mod, fname, cu, platform_aware=pa)
+                    n += 1
+                    ctx.ob(rule, "%s/%s/pa=%d" % (fname, u, pa), a == b,
+                           "%s(%r%s) is %r but %s of its canonical form %r is %r: canonicalizing first changes the aggregate" % (fname, u, ", platform_aware=True" if pa else "", a, fname, cu, b), site, witness=u,
+                           sample="%r -> %r" % (u, a) if pa and "redirect" in u else None)
+        except Unknown as e:
+            ctx.undecided(rule, "%r: %s" % (u, e))
+    ctx.require_instances(rule, n, 4 * len(COMPOSE_CELLS) - 8, "(function, url, platform_aware) cells")
